@@ -5,6 +5,7 @@ package pdf
 import (
 	"bytes"
 	"io"
+	"math"
 
 	"seehuhn.de/go/pdf/internal/verifrt"
 )
@@ -340,4 +341,25 @@ func Verif_C01_window_position() {
 	verifrt.Cover("parsed")
 	verifrt.Assert(ok, "output parses as exactly one object")
 	verifrt.Assert(verifEqual(arr, got), "round trip at any window position")
+}
+
+// Verif_C01_real_binary_grid: every power of two of the float64 range and
+// its neighbours (mantissa all zeros / all ones; thorough: also 1 and the
+// half-way pattern), both signs, incl. subnormals.  The values are concrete
+// per path (float formatting is not encodable): a solver-enumerated grid of
+// 8k/16k values around every binary exponent, where integer conversions and
+// digit-count decisions change.
+func Verif_C01_real_binary_grid() {
+	exp := uint64(verifrt.Len("exp", 0, 2046))
+	mants := []uint64{0, 1<<52 - 1, 1, 1 << 51}
+	mant := mants[verifrt.Choice("mant", 2+2*verifrt.Tier())]
+	sign := uint64(verifrt.Choice("sign", 2))
+	x := Real(math.Float64frombits(sign<<63 | exp<<52 | mant))
+	var buf bytes.Buffer
+	err := Format(&buf, 0, x)
+	verifrt.Assert(err == nil, "format succeeds")
+	got, ok := verifParseFrom(bytes.NewReader(buf.Bytes()))
+	verifrt.Cover("parsed")
+	verifrt.Assert(ok, "output parses as exactly one object")
+	verifrt.Assert(verifEqual(x, got), "real round trip")
 }
